@@ -176,7 +176,7 @@ func ruleR02(c *Ctx) {
 	for _, tk := range c.m.Trees {
 		form := c.restoreForm(tk)
 		for _, mname := range []string{"Search", "Delete", "Insert"} {
-			u := tk.Methods[mname]
+			u := c.m.effectiveMethod(tk, mname)
 			if u == nil {
 				c.r.undecided("R02", tk.Name+"."+mname+" missing", "-", "method not found", "C01")
 				continue
@@ -250,6 +250,13 @@ func ruleR02(c *Ctx) {
 								lv = identVar(info, sel.X)
 							}
 							if lv == nil {
+								// the value of a leaf handed back by a lookup helper that returns a leaf
+								// only after the full-key comparison (search(root, key, …))
+								if why := c.foundThroughHelper(tk, u, x, form); why != "" {
+									nEvents++
+									c.r.ok("R02", fmt.Sprintf("%s.%s return-found", tk.Name, mname), c.m.pos(x.Pos()), why, props...)
+									continue
+								}
 								c.r.bad("R02", fmt.Sprintf("%s.%s return-found", tk.Name, mname), c.m.pos(x.Pos()), "found-result is not the value of a compared leaf", props...)
 								nEvents++
 								continue
@@ -333,3 +340,90 @@ func (c *Ctx) isEmptyRefLit(e ast.Expr) bool {
 }
 
 var _ = cfg.New
+
+
+// foundThroughHelper: `return (*L)(p).value, true` where p is the result of a library function F,
+// the return is dominated by p != nil, and F returns a non-nil pointer only under its own
+// successful full-key comparison (with the stored form restoreKey hands out).
+func (c *Ctx) foundThroughHelper(tk *TreeKind, u *FuncUnit, ret *ast.ReturnStmt, form string) string {
+	info := c.m.Info
+	sel, ok := ast.Unparen(ret.Results[0]).(*ast.SelectorExpr)
+	if !ok {
+		return ""
+	}
+	e := ast.Unparen(sel.X)
+	for {
+		if cv, ok := e.(*ast.CallExpr); ok && isConversion(info, cv) && len(cv.Args) == 1 {
+			e = ast.Unparen(cv.Args[0])
+			continue
+		}
+		if id, ok := e.(*ast.Ident); ok {
+			// a typed local bound once to a conversion of the pointer: leaf := (*L)(p)
+			if d := c.m.resolveLocal(u, id); d != nil {
+				if cv, ok := ast.Unparen(d).(*ast.CallExpr); ok && isConversion(info, cv) && len(cv.Args) == 1 {
+					e = ast.Unparen(cv.Args[0])
+					continue
+				}
+			}
+		}
+		break
+	}
+	pv := identVar(info, e)
+	if pv == nil {
+		return ""
+	}
+	def := c.defCallOf(u, pv)
+	if def == nil {
+		return ""
+	}
+	fu := c.m.calleeUnit(def)
+	if fu == nil || fu.Lit != nil || fu.Body == nil {
+		return ""
+	}
+	// dominated by p != nil
+	g := c.m.cfgOf(u)
+	rb, _ := blockOf(g, ret)
+	nonNil := false
+	for _, gd := range guardsOf(info, g) {
+		be, ok := ast.Unparen(gd.atom.e).(*ast.BinaryExpr)
+		if !ok || rb == nil || !edgeDominates(g, gd.b, gd.succ, rb) {
+			continue
+		}
+		isNeq := (be.Op == token.NEQ && gd.atom.val) || (be.Op == token.EQL && !gd.atom.val)
+		if isNeq && ((identVar(info, be.X) == pv && info.Types[be.Y].IsNil()) || (identVar(info, be.Y) == pv && info.Types[be.X].IsNil())) {
+			nonNil = true
+		}
+	}
+	if !nonNil {
+		return ""
+	}
+	// F: every non-nil return under a successful comparison of the right stored form
+	fg := c.m.cfgOf(fu)
+	guards := c.equalGuards(fu)
+	okAll, any := true, false
+	for _, b := range fg.Blocks {
+		if !b.Live {
+			continue
+		}
+		for _, n := range b.Nodes {
+			rs, isRet := n.(*ast.ReturnStmt)
+			if !isRet || len(rs.Results) != 1 || info.Types[rs.Results[0]].IsNil() {
+				continue
+			}
+			any = true
+			dominated := false
+			for _, eg := range guards {
+				if edgeDominates(fg, eg.g.b, eg.g.succ, b) && (form == "" || eg.form == form) {
+					dominated = true
+				}
+			}
+			if !dominated {
+				okAll = false
+			}
+		}
+	}
+	if !any || !okAll {
+		return ""
+	}
+	return fmt.Sprintf("the leaf comes from %s, which returns a leaf only under its own successful full-key comparison, and is used under %s != nil", fu.Name, pv.Name())
+}
